@@ -389,10 +389,17 @@ def trace_checks(ctx, jobs, dis):
         if evb:
             toks = ['rRef' if kd == 'R' else 'wRef' for kd, nm in evb]
             b1 = object.__getattribute__(obj, '_spline_basis')
-            if not job['two_d'] and b1 is not None:
-                init = 'none' if st0['basis'] is None else f'{st0["basis"][0]}:{st0["basis"][1]}'
-                lines.append(f'c04.trace basis {init} {b1.num_knots}:{b1.spline_degree}')
+            if b1 is not None:
+                bcodes = {}
+
+                def bcode(v):
+                    # (num_knots, degree) as naturals; 2-D pairs are coded
+                    v = tuple(int(t) for t in np.atleast_1d(v))
+                    return v[0] if len(v) == 1 else bcodes.setdefault(v, 100 + len(bcodes))
+                init = 'none' if st0['basis'] is None else f'{bcode(st0["basis"][0])}:{bcode(st0["basis"][1])}'
+                lines.append(f'c04.trace basis {init} {bcode(b1.num_knots)}:{bcode(b1.spline_degree)}')
                 metas.append(('basis', job, toks))
+                ctx.count('basis-trace')
     res = drive(lines)
     ctx.traces += len(lines)
     i = 0
